@@ -501,10 +501,11 @@ pub fn run_check(spec: &CheckSpec, tier: &str, seed: u64) -> i32 {
     let evpath = std::env::var("VERIF_EVIDENCE").map(PathBuf::from).unwrap_or_else(|_| evdir.join(format!("{}.json", spec.property)));
     std::fs::write(&evpath, serde_json::to_string_pretty(&ev).unwrap()).expect("write evidence");
     println!(
-        "{} {}: {} runs, {} distinct non-trivial, {} steps, {} sign calls, {} deliveries, {} known-finding classes, {} new violation classes, {:.1}s",
+        "{} {}: {} runs ({} skipped for time), {} distinct non-trivial, {} steps, {} sign calls, {} deliveries, {} known-finding classes, {} new violation classes, {:.1}s",
         spec.property,
         tier,
         evaluations,
+        skipped_total,
         distinct_nontrivial.len(),
         stats.steps,
         stats.sign_calls,
